@@ -224,7 +224,7 @@ func (d *deriver) obligations(dv *Derived, formatter string) {
 			gotImp = append(gotImp, "<nil>")
 			continue
 		}
-		if o, ok := ps.Fields["pkg"].(*interp.Opaque); ok {
+		if o, ok := ps.Aux["pkg"].(*interp.Opaque); ok {
 			gotImp = append(gotImp, symFlat(o.Attrs["path"]))
 		}
 	}
@@ -404,4 +404,26 @@ func ModelFromData(base *Model, data *interp.Struct) *Model {
 		m.Mocks = append(m.Mocks, mi)
 	}
 	return &m
+}
+
+// MockNamesOf reads the interface and mock names of the i-th mock off the derived template data, and
+// the names the path asked the registry to look up.
+func MockNamesOf(dv *Derived, i int) (iface, mock string, lookups []string, ok bool) {
+	for _, e := range dv.Events {
+		if e.Kind == "lookup" {
+			lookups = append(lookups, e.Detail)
+		}
+	}
+	if dv.Data == nil {
+		return "", "", lookups, false
+	}
+	mocks := listOf(fieldOf(dv.Data, "Mocks"))
+	if i >= len(mocks) {
+		return "", "", lookups, false
+	}
+	ms := structOf(mocks[i])
+	if ms == nil {
+		return "", "", lookups, false
+	}
+	return symFlat(fieldOf(ms, "InterfaceName")), symFlat(fieldOf(ms, "MockName")), lookups, true
 }
